@@ -1086,7 +1086,7 @@ impl<'a, R: CharRead> Lexer<'a, R> {
 
     fn parse_float_lossy(&self, token: &str) -> Result<f64, ParserError> {
         const FORMAT: u128 = lexical::format::STANDARD;
-        let Ok(options) = lexical::ParseFloatOptions::builder().lossy(true).build() else {
+        let Ok(options) = lexical::ParseFloatOptions::builder().lossy(false).build() else {
             return Err(self.located_error(ParserErrorKind::ParseFloat));
         };
 
